@@ -18,7 +18,10 @@ RULE = ('A real Crazyflie connects (virtual time, deterministic scheduler) to a 
         '1 s retry, duplicated replies, error statuses), an optional link drop after the k-th exchanged packet (from the driver thread or '
         'the sending thread), whether the link needs resending, and a thread schedule. Oracle: dict-backed memory image model + exactly-one '
         'notification bookkeeping + message-size limits + submission-order completion + a probe read/write on every memory afterwards. '
-        'Non-trivial = a transfer longer than one chunk combined with a duplicate, an error status, a delayed reply or a link drop.')
+        'Non-trivial = a transfer longer than one chunk combined with a duplicate, an error status, a delayed reply or a link drop. Enumerated '
+        'next to the random histories: a link drop after every k-th packet, the k-th chunk refused (with and without a retry from the failure '
+        'notification), every reply duplicated at every phase of the next transfer, writes flushed behind a write on the air, a write chained '
+        'from the completion notification, thousands-of-bytes writes with progress reports, single forced preemptions.')
 ASSUMPTIONS = ['reads and writes on the SAME memory are not overlapped in time (what a read returns would be schedule dependent); different '
                'memories run concurrently', 'a duplicated reply is suppressed if the device has meanwhile received a newer request with the '
                'same channel/id/address (byte-identical replies are ambiguous on the wire); suppressed duplicates are counted',
